@@ -280,6 +280,11 @@ def _sx_post(ctx, A, Z, result):
 def setup(ctx):
     from cryocat import cryomotl, tmana, geom, ioutils, cryomap
     ctx.cm, ctx.tm = cryomotl, tmana
+    # scores_extract_particles calls gc.collect() on every call (35 ms with sklearn/skimage/lmfit loaded); moving the
+    # import-time objects to the permanent generation makes that call cheap without touching cryoCAT's behaviour
+    import gc
+    gc.collect()
+    gc.freeze()
     f1 = monitors.wrap(ctx, cryomotl.Motl, "clean_by_distance", "cbd_rows", _cbd_post, _cbd_applicable, _cbd_snapshot)
     f2 = monitors.wrap(ctx, tmana, "scores_extract_particles", "sx_threshold", _sx_post, _sx_applicable, _sx_snapshot)
     ctx.declare("cbd_separated", "cbd_dominated", "cbd_isolation", "cbd_metamorphic",
@@ -919,12 +924,14 @@ def extra(ctx):
     cm, tm = ctx.cm, ctx.tm
     big = ctx.tier == "thorough"
     # (a) all n-point configurations on a 5-site line x all score orders x all 2-group assignments x both directions x 2 radii
-    npts = 4 if big else 3
+    npts, nsites = (4, 5) if big else (3, 4)
     base = gens.motl_table(ctx.rng(10 ** 6), npts, tomos=1)
     count = 0
-    for sites in itertools.combinations(range(5), npts):
+    for sites in itertools.combinations(range(nsites), npts):
         for perm in itertools.permutations(range(npts)):
             for grp in itertools.product([1.0, 2.0], repeat=npts):
+                if grp[0] != 1.0:            # group names are interchangeable (relabelling is covered by cbd_metamorphic)
+                    continue
                 for kg in (True, False):
                     for d in (1.5, 2.5):
                         df = base.copy()
@@ -936,7 +943,7 @@ def extra(ctx):
                         m = cm.Motl(df)
                         ctx.call("clean_by_distance[exhaustive]", m.clean_by_distance, d, "tomo_id", metric_id="score", keep_greater=kg)
                         count += 1
-    ctx.extra["cbd_line_configurations(%d points of 5 sites x score orders x 2-group assignments x direction x d in {1.5,2.5})" % npts] = count
+    ctx.extra["cbd_line_configurations(%d points on %d collinear sites x score orders x 2-group assignments x direction x d in {1.5,2.5})" % (npts, nsites)] = count
     # (b) all score orders of a tiny map x diameters x two thresholds
     shape = (1, 2, 3) if big else (1, 1, 5)
     nv = int(np.prod(shape))
